@@ -77,6 +77,11 @@ def run(ctx):
         src = mk(Particle, n, ms, vals)
         dst = mk(Particle, n, [0.0] * n, {c: [0.0] * n for c in COMPS})
         pm = mk(Particle, n, ms, vals)
+        if kind.startswith("jac") and k % 3 != 0:
+            # the Jacobi routines take the masses from a SEPARATE array p_mass (WHFast passes the real particles there
+            # when it transforms variational particles, whose own .m is unrelated): give the set unrelated own masses
+            for i in range(1 if kind.startswith("jacI") else 0, n):
+                src[i].m = rng.choice([0.0, rng.uniform(0.0, 3.0)])
         msl = vlib.flist(ms)
         dist[(kind, min(n, 9), na == n)] = dist.get((kind, min(n, 9), na == n), 0) + 1
         f = lambda name: getattr(clib, "reb_particles_transform_" + name)
